@@ -225,7 +225,7 @@ def gen_scenario(seed, variant=None):
     connect = []
     for k in range(12):
         r = rng.random()
-        connect.append("accept" if r < 0.7 else ("refuse" if r < 0.97 else "blackhole"))
+        connect.append("accept" if r < 0.7 else ("refuse" if r < 0.91 else ("refuse_sync" if r < 0.97 else "blackhole")))
     if variant.get("connect"):
         connect = variant["connect"]
     cuts = {}
